@@ -46,3 +46,22 @@ Proof.
   intros G A V HL. destruct (fuel_suffices c maxatt buf (EStart OFF_COMMITTED :: EReqOk v :: rest) A) as (f0 & H).
   exists f0. intros fuel Hge Hon NR. apply resume_run; auto.
 Qed.
+
+(* the four run-level statements at once (one fuel for all of them) *)
+Theorem c03_any_fuel c maxatt buf evs : 0 <= c_acn c -> exists f0, forall fuel, (f0 <= fuel)%nat ->
+  (exists b, mon_run_s pwb_ev pwb_out pwb0 (run_steps fuel (init c maxatt buf) evs)
+             = Some (mkPB (pw_abs None (fst (run_events fuel (init c maxatt buf) evs))) b)
+             /\ (b = true -> dead (fst (run_events fuel (init c maxatt buf) evs)) = true)) /\
+  (exists g, mon_run_s c3_ev c3_out c30 (run_steps fuel (init c maxatt buf) evs) = Some g
+             /\ c3_inv g
+             /\ b_pw (m_b g) = pw_abs None (fst (run_events fuel (init c maxatt buf) evs))
+             /\ processed_end g (m_store g) /\ Forall (processed_end g) (m_sent g)
+             /\ match m_co g with Some off => processed_end g off | None => True end) /\
+  mon_run req2_ev req2_out q20 (model_obs fuel c maxatt buf evs) = Some (req2_abs (fst (run_events fuel (init c maxatt buf) evs))).
+Proof.
+  intro A. destruct (fuel_suffices c maxatt buf evs A) as (f0 & H). exists f0. intros fuel Hge. specialize (H fuel Hge).
+  split; [apply pwb_monitor_accepts; assumption|]. split; [|apply req2_monitor_accepts; assumption].
+  destruct (c3_monitor_accepts fuel c maxatt buf evs A H) as (g & Hg & I & Hb & _).
+  exists g. split; [exact Hg|]. split; [exact I|]. split; [exact Hb|].
+  destruct I as [_ _ _ _ Hco Hs Hst]. auto.
+Qed.
